@@ -392,7 +392,55 @@ class C18(FrpProp):
     profile = Profile(w=W(router=12, filter=6), p_mem=0.2, p_def_in_txn=0.2, n_txn=(4, 12))
 
 
-class C06(FrpProp):
+class GcBacked(FrpProp):
+    """C06/C07 also run collector-level scripts (synthetic objects on the real GcCtx): the part of these properties
+    that is the collector's own responsibility, judged by reachability on the dumped heap"""
+
+    def batches(self, tier, seed):
+        for b in FrpProp.batches(self, tier, seed):
+            yield b
+        from .gcprops import gen
+        n = 4000 if tier == "quick" else 60000
+        rs = []
+        for k in range(4):
+            rs += gen(["gc-rand", int(seed) * 4 + k + 11, n // 4, 30, 8, 4, 3])
+        yield Batch("gc-run", rs, "collector-level random scripts")
+
+    def run_model(self, batch, scripts, iout, shards=C.NPROC):
+        if batch.mode == "gc-run":
+            return Prop.run_model(self, batch, scripts, iout, shards)
+        return FrpProp.run_model(self, batch, scripts, iout, shards)
+
+    def agree(self, batch, name, lines, mout, io):
+        if batch.mode == "gc-run":
+            d = Prop.agree(self, batch, name, lines, mout, io)
+            return ("HIDDEN: " + d) if d else None
+        return FrpProp.agree(self, batch, name, lines, mout, io)
+
+    def oracle(self, batch, name, lines, out):
+        if batch.mode == "gc-run":
+            from .gcprops import c08_oracle
+            return c08_oracle(lines, out)
+        return FrpProp.oracle(self, batch, name, lines, out)
+
+    def known_class(self, batch, name, lines, out, why):
+        if batch.mode == "gc-run":
+            return None
+        return FrpProp.known_class(self, batch, name, lines, out, why)
+
+    def well_formed(self, lines):
+        if lines and lines[0].split()[0] in ("create", "clone", "drop", "edge", "unedge", "upgrade", "collect") \
+                and not any(l.split()[0] in DEF_OPS for l in lines):
+            return True
+        return FrpProp.well_formed(self, lines)
+
+    def nontrivial(self, batch, name, lines, out):
+        if batch.mode == "gc-run":
+            return any(l.strip() == "collect" for l in lines)
+        return FrpProp.nontrivial(self, batch, name, lines, out)
+
+
+class C06(GcBacked):
     pid = "C06"
     tag = "c06"
     level_text = ("Theorems over the collector model (Model/Gc.v, tied bit-exactly to gc_node.rs by C08's correspondence), unbounded: "
@@ -447,7 +495,7 @@ def everything_dropped(lines):
     return (not live and not ls and not lazies and depth == 0 and not scoped and tail == ["{", "}", "gc"])
 
 
-class C07(FrpProp):
+class C07(GcBacked):
     pid = "C07"
     tag = "c07"
     level_text = ("Theorems over the collector model, unbounded: once no handle is held ONE collection frees every object (cycles, "
